@@ -35,7 +35,7 @@ def BOUND(tier):
 
 
 def _id(c):
-    return f"states={','.join(c['order'])}|restricted={','.join(c['restricted']) or '-'}|pfilter={int(c['pfilter'])}|crev={int(c['crev'])}|frev={int(c['frev'])}"
+    return f"states={','.join(c['order'])}|restricted={','.join(c['restricted']) or '-'}|pfilter={c['pfilter'] if isinstance(c['pfilter'], str) else int(c['pfilter'])}|crev={int(c['crev'])}|frev={int(c['frev'])}"
 
 
 def cases(tier, seed):
@@ -66,6 +66,17 @@ def cases(tier, seed):
                         for crev in (False, True):
                             add(sset, rset, pf, crev, False, "R")
                     add(tuple(reversed(sset)), rset, bool(rset), True, True, "R")
+                    if rset:
+                        add(sset, rset, "mix", False, False, "R")
+                        add(sset, rset, "mix", False, True, "R")
+    # histories: models that share every name but differ in the filter body, built in ONE process
+    variants = [False, True, "alt"]
+    for L_ in (2, 3):
+        for seq in itertools.product(range(3), repeat=L_):
+            if len(set(seq)) > 1:
+                c = {"order": ["s", "g", "w"], "restricted": ["g", "s"], "pfilter": False, "crev": False, "frev": False, "seed": seed, "block": "H", "history": [variants[i] for i in seq]}
+                c["id"] = "history-" + ">".join(str(variants[i]) for i in seq)
+                out.append(c)
     return out
 
 
@@ -89,11 +100,20 @@ def build(case):
     funcs = ["utility"]
     if R:
         ssum = " + ".join(R)
-        if case["pfilter"]:
+        if case["pfilter"] == "mix":
+            # one period-dependent and one period-independent filter (the latter declared last)
+            L.append(f"def r_filter({', '.join(R)}, d, _period):\n    return jnp.logical_and(({ssum}) <= 1 + _period, d <= _period)")
+            L.append(f"def q_filter({', '.join(R)}, d):\n    return jnp.logical_or(d == 0, ({ssum}) % 2 == 0)")
+            funcs.append("r_filter")
+            funcs.append("q_filter")
+        elif case["pfilter"] == "alt":
+            L.append(f"def r_filter({', '.join(R)}, d):\n    return jnp.logical_or(d == 0, ({ssum}) % 2 == 1)")
+        elif case["pfilter"]:
             L.append(f"def r_filter({', '.join(R)}, d, _period):\n    return jnp.logical_and(({ssum}) <= 1 + _period, jnp.logical_or(d == 0, ({ssum}) % 2 == 0))")
         else:
             L.append(f"def r_filter({', '.join(R)}, d):\n    return jnp.logical_and(({ssum}) != 2, jnp.logical_or(d == 0, ({ssum}) % 2 == 0))")
-        funcs.append("r_filter")
+        if case["pfilter"] != "mix":
+            funcs.append("r_filter")
     if has_w:
         L.append("def c_constraint(c, w):\n    return c <= w + 0.2371")
         funcs.append("c_constraint")
@@ -125,6 +145,22 @@ def build(case):
 
 
 def run_case(case):
+    if case.get("history"):
+        agg = None
+        for pf in case["history"]:
+            sub = dict(case, pfilter=pf)
+            sub.pop("history")
+            out = run_case(sub)
+            if agg is None:
+                agg = out
+            else:
+                for k in ("states", "transitions", "traces"):
+                    agg[k] += out[k]
+                agg["violations"] += [dict(v, message=f"after building {case['history']} in one process, filter variant {pf}: " + v["message"]) for v in out["violations"]]
+                agg["digest"] = digest(agg["digest"], out["digest"])
+                if out["status"] == "violation":
+                    agg["status"] = "violation"
+        return agg
     text, model, params = build(case)
     r, R, why = e1.reference(model, params)
     if why:
